@@ -733,41 +733,42 @@ structure Seen where
 def transient (l : Label) (held : List Id) : List Id :=
   (holdAll [] l.remoteRefs).filter (fun k => !held.contains k)
 
+/-- one value travels: `_box` at the sender `o`, `_unbox` at the receiver `q` (label tree, arrived value, both ends after) -/
+def xfer (o q : Side) (x : PyVal) : Except Err (Label × PyVal × Side × Side) :=
+  match box o.tbl x with
+  | .error e => .error e
+  | .ok (l, t) =>
+    match unbox q l with
+    | .error e => .error e
+    | .ok (y, q1) => .ok (l, y, { o with tbl := t }, q1)
+
 /-- `a` calls a function of `b` with argument tuple `x`; `b` keeps the arguments or not -/
 def Conv.send (c : Conv) (x : PyVal) (keep : Bool) : Except Err (Seen × Conv) :=
-  match box c.a.tbl x with
+  match xfer c.a c.b x with
   | .error e => .error e
-  | .ok (l, ta) =>
-    match unbox c.b l with
-    | .error e => .error e
-    | .ok (y, b1) =>
-      let seen : Seen := { labels := [l], values := [(y, b1)] }
-      let a1 : Side := { c.a with tbl := ta }
-      if keep then .ok (seen, { c with a := a1, b := b1, heldB := holdAll c.heldB l.remoteRefs })
-      else
-        -- the arguments die when the handler returns: proxies nobody else holds are finalized
-        let r := releaseAll a1 b1 (transient l c.heldB)
-        .ok (seen, { c with a := r.1, b := r.2 })
+  | .ok (l, y, a1, b1) =>
+    if keep then
+      .ok ({ labels := [l], values := [(y, b1)] }, { c with a := a1, b := b1, heldB := holdAll c.heldB l.remoteRefs })
+    else
+      -- the arguments die when the handler returns: proxies nobody else holds are finalized
+      .ok ({ labels := [l], values := [(y, b1)] },
+           { c with a := (releaseAll a1 b1 (transient l c.heldB)).1, b := (releaseAll a1 b1 (transient l c.heldB)).2 })
 
 /-- `a` calls `b`'s identity function: `x` travels there, the received value travels back; afterwards neither
-application keeps the travelling values -/
+application keeps the travelling values: first `b`'s proxies of `a`'s objects go, then `a`'s proxies of `b`'s -/
 def Conv.echo (c : Conv) (x : PyVal) : Except Err (Seen × Conv) :=
-  match box c.a.tbl x with
+  match xfer c.a c.b x with
   | .error e => .error e
-  | .ok (l, ta) =>
-    match unbox c.b l with
+  | .ok (l, y, a1, b1) =>
+    match xfer b1 a1 y with
     | .error e => .error e
-    | .ok (y, b1) =>
-      match box b1.tbl y with
-      | .error e => .error e
-      | .ok (l2, tb) =>
-        match unbox { c.a with tbl := ta } l2 with
-        | .error e => .error e
-        | .ok (z, a1) =>
-          let seen : Seen := { labels := [l, l2], values := [(y, b1), (z, a1)] }
-          let r1 := releaseAll a1 { b1 with tbl := tb } (transient l c.heldB)      -- b's proxies of a's objects
-          let r2 := releaseAll r1.2 r1.1 (transient l2 c.heldA)                    -- a's proxies of b's objects
-          .ok (seen, { c with a := r2.2, b := r2.1 })
+    | .ok (l2, z, b2, a2) =>
+      .ok ({ labels := [l, l2], values := [(y, b1), (z, a2)] },
+           { c with
+             a := (releaseAll (releaseAll a2 b2 (transient l c.heldB)).2 (releaseAll a2 b2 (transient l c.heldB)).1
+                    (transient l2 c.heldA)).2,
+             b := (releaseAll (releaseAll a2 b2 (transient l c.heldB)).2 (releaseAll a2 b2 (transient l c.heldB)).1
+                    (transient l2 c.heldA)).1 })
 
 /-- `b` unboxes a package that did not come out of `a`'s `_box` (any label tree) and lets the result go at once -/
 def Conv.raw (c : Conv) (l : Label) : Except Err (Seen × Conv) :=
@@ -779,17 +780,52 @@ def Conv.raw (c : Conv) (l : Label) : Except Err (Seen × Conv) :=
 
 /-- `b` hands one of its own objects to `a`, whose application keeps the proxy -/
 def Conv.make (c : Conv) (id : Id) : Except Err (Seen × Conv) :=
-  match box c.b.tbl (.obj id) with
+  match xfer c.b c.a (.obj id) with
   | .error e => .error e
-  | .ok (l, tb) =>
-    match unbox c.a l with
-    | .error e => .error e
-    | .ok (y, a1) =>
-      .ok ({ labels := [l], values := [(y, a1)] },
-        { c with a := a1, b := { c.b with tbl := tb }, heldA := holdAll c.heldA [id] })
+  | .ok (l, y, b1, a1) =>
+    .ok ({ labels := [l], values := [(y, a1)] }, { c with a := a1, b := b1, heldA := holdAll c.heldA [id] })
 
 /-- `b`'s application lets go of everything it kept -/
 def Conv.forget (c : Conv) : Conv :=
   { c with a := (releaseAll c.a c.b c.heldB).1, b := (releaseAll c.a c.b c.heldB).2, heldB := [] }
+
+/-- the operations of a conversation between well-behaved ends (hand-made packages are not among them) -/
+inductive ConvOp where
+  | send (keep : Bool) (x : PyVal)
+  | echo (x : PyVal)
+  | make (id : Id)
+  | forget
+
+/-- one operation; an operation the code refuses (KeyError, an unmodelled value) changes nothing -/
+def Conv.step (c : Conv) : ConvOp → Conv
+  | .send keep x => match c.send x keep with
+    | .ok (_, c') => c'
+    | .error _ => c
+  | .echo x => match c.echo x with
+    | .ok (_, c') => c'
+    | .error _ => c
+  | .make id => match c.make id with
+    | .ok (_, c') => c'
+    | .error _ => c
+  | .forget => c.forget
+
+def Conv.run (c : Conv) : List ConvOp → Conv
+  | [] => c
+  | op :: ops => Conv.run (c.step op) ops
+
+/-- `_unbox` of `REMOTE_REF id` when no proxy of `id` is cached and the round trip that fetches the proxy's class
+(`HANDLE_INSPECT`) runs a nested dispatch which receives the SAME object.  First component: what the nested dispatch
+got; second: what the outer `_unbox` returns.  `recheck = true`: the cache is consulted once the class is known, so
+the outer call finds the nested call's proxy (one object, counted twice); `recheck = false`: it goes on with its stale
+miss, creates a second proxy object and overwrites the cache entry. -/
+def unboxRefAcrossInspect (recheck : Bool) (s : Side) (id : Id) : PyVal × PyVal × Side :=
+  if recheck then
+    ((unboxRef s id).1, (unboxRef (unboxRef s id).2 id).1, (unboxRef (unboxRef s id).2 id).2)
+  else
+    ((unboxRef s id).1, .proxy id (unboxRef s id).2.next,
+     { (unboxRef s id).2 with
+       px := (unboxRef s id).2.px.recv id,
+       pid := fun j => if j = id then (unboxRef s id).2.next else (unboxRef s id).2.pid j,
+       next := (unboxRef s id).2.next + 1 })
 
 end Rpyc.Box
